@@ -305,7 +305,7 @@ def to_pascal(s):
 
 def to_snake(s):
     out = []
-    cs = list(s)
+    cs = list(s[2:] if s.startswith('r#') else s)      # a raw identifier contributes its bare name
     for i, ch in enumerate(cs):
         if ch.isupper():
             prev_l = i > 0 and cs[i - 1].islower()
@@ -487,8 +487,12 @@ def gen_wellformed(rnd, shape, idx=0):
         d.append(('context', 'Ctx'))
     if shape.async_:
         d.append(('async', True))
+    elif rnd.random() < 0.25:
+        d.append(('async', False))         # the key spelled out with its default value
     if shape.dynamic:
         d.append(('dynamic', True))
+    elif rnd.random() < 0.25:
+        d.append(('dynamic', False))
     d.append(('states', forest))
     if rnd.random() < 0.15:
         d.insert(rnd.randint(0, len(d)), ('legacy', rnd.choice(['state', 'action', 'callbacks'])))
